@@ -423,7 +423,7 @@ def run(ctx):
                 "result.protocolVersion and the protocol_version of the session the call created. handshake: the real "
                 "send_initialize piped in memory to the real handler (alternately object-passing and JSON round trip) for every "
                 "client list of C03 (1..3 of 6 versions, repeats, default) x preferred; observed: proposal, outcome, version "
-                "answered and recorded, notifications reaching the server. distinct = distinct requests / configurations")
+                "answered and recorded, notifications reaching the server; histories of 2-3 initialize requests on one handler, each answer read again after the later requests were handled. distinct = distinct requests / configurations")
     return lib.finish(ctx, TRUSTED, ASSUME)
 
 
